@@ -188,7 +188,8 @@ pub fn lattice_orient(cx: &mut Ctx, case: &Value) {
     // the f32 kernel on triples that mix magnitudes: q = (k, k) and r = (3, 3) on the main diagonal, p = t (2, 1) or t (1, 2) with
     // t tiny: (r - q) x (p - q) = (3 - k) t (p.y - p.x) / t ... its sign is that of p.y - p.x whatever t is (structural, no
     // arithmetic): clockwise for (2, 1), counter-clockwise for (1, 2); likewise mirrored through the origin
-    if a == (0, 0) && b == (1, 0) {
+    static F32_MIXED_DONE: std::sync::atomic::AtomicBool = std::sync::atomic::AtomicBool::new(false);
+    if !F32_MIXED_DONE.swap(true, std::sync::atomic::Ordering::SeqCst) {
         for t in [1e-20f32, 1e-30, 2f32.powi(-100), 2f32.powi(-140), 1e-3, 1.0] {
             for (px, py, want) in [(2.0f32, 1.0f32, -1i64), (1.0, 2.0, 1), (-2.0, -1.0, 1), (-1.0, -2.0, -1)] {
                 for k in [1.0f32, 2.0, -5.0] {
